@@ -80,6 +80,24 @@ type c20Obs struct {
 	Hang  bool        `json:"hang,omitempty"`
 }
 
+// per-case watchdog: a sequential case takes microseconds and a stress run milliseconds; once a
+// few cases have hung (their goroutines stay blocked) the following ones wait less
+var c20Hangs int32
+
+func c20Watchdog() time.Duration {
+	if atomic.LoadInt32(&c20Hangs) >= 3 {
+		return 300 * time.Millisecond
+	}
+	return 8 * time.Second
+}
+
+func c20OuterWatchdog(kind string) time.Duration {
+	if kind == "conc" { // two watched phases inside
+		return 2*c20Watchdog() + time.Second
+	}
+	return c20Watchdog()
+}
+
 var c20Time = timestamppb.New(time.Unix(1600000000, 0))
 
 func c20Block(id uint64) *pbbstream.Block {
@@ -285,7 +303,7 @@ func c20RunConc(in *c20Input, obs *c20Obs) {
 	}
 
 	// the producer must return on its own, whatever the consumers do
-	deadline := time.After(20 * time.Second)
+	deadline := time.After(c20Watchdog())
 	tick := time.NewTicker(200 * time.Microsecond)
 	defer tick.Stop()
 wait:
@@ -297,7 +315,9 @@ wait:
 			}
 		case <-deadline:
 			obs.Hang = true
-			return // goroutines are abandoned
+			atomic.StoreInt32(&prodDone, 2) // releases the subscribers waiting for their start instant
+			close(done)
+			return // the blocked producer goroutine is abandoned
 		}
 	}
 	// let late subscribers (start_after beyond the last push) subscribe, then stop the consumers
@@ -307,7 +327,7 @@ wait:
 	go func() { wg.Wait(); close(fin) }()
 	select {
 	case <-fin:
-	case <-time.After(20 * time.Second):
+	case <-time.After(c20Watchdog()):
 		obs.Hang = true
 		return
 	}
@@ -400,9 +420,12 @@ func c20Exec(raw json.RawMessage) (*Case, error) {
 	}()
 	select {
 	case <-finished:
-	case <-time.After(60 * time.Second):
-		// an operation never returned (sequential mode): report what was observed so far as a hang
+	case <-time.After(c20OuterWatchdog(in.Kind)):
+		// an operation never returned (sequential mode): reported as a hang
 		obs = &c20Obs{Subs: []c20SubObs{}, Hang: true}
+	}
+	if obs.Hang {
+		atomic.AddInt32(&c20Hangs, 1)
 	}
 
 	cs := &Case{Obs: obs}
